@@ -183,6 +183,7 @@ PROPS["C02"] = {
         "tests": [T("TestC02TargetStrings", {"checks": 1000, "shards": 8}, {"checks": 6000, "shards": 16}),
                   T("TestC02Exclusion", {"checks": 100, "shards": 8}, {"checks": 800, "shards": 16}),
                   T("TestC02ExclusionWide", {"checks": 10, "shards": 6}, {"checks": 100, "shards": 16}),
+                  T("TestC02ListNextToSubnet", {"checks": 60, "shards": 4}, {"checks": 600, "shards": 8}),
                   T("TestC02Redirect", {"checks": 150, "shards": 4}, {"checks": 2000, "shards": 8})],
     }, {
         "pkg": "command", "fuzz": True, "thorough_only": True,
